@@ -496,7 +496,7 @@ second piece starts where the first ends -/
 theorem splitAt_decomp (pre post : List WSeg) (old seg : WSeg) (a : Nat) :
     (splitAt (pre ++ old :: post) pre.length seg a).1 =
       (if seg.data.length > a then
-        pre ++ { seg with data := seg.data.take a } :: { seq := addS seg.seq a, flags := seg.flags, data := seg.data.drop a } :: post
+        pre ++ { seg with data := seg.data.take a } :: { seq := addS seg.seq a, flags := seg.flags, data := seg.data.drop a, gOff := seg.gOff + a } :: post
        else pre ++ seg :: post) ∧
     (splitAt (pre ++ old :: post) pre.length seg a).2 = (if seg.data.length > a then { seg with data := seg.data.take a } else seg) := by
   unfold splitAt
@@ -528,7 +528,7 @@ theorem splitAt_bytes (pre post : List WSeg) (old seg : WSeg) (a : Nat) :
 every remaining byte keeps its sequence number (the repaired defect F01) -/
 theorem partial_ack_keeps_positions (s : Snd) (seg : WSeg) (rest : List WSeg) (k fuel : Nat)
     (hwl : s.writeList = seg :: rest) (hk : 0 < k) (hlt : k < seg.logicalLen) :
-    (ackLoop (fuel + 1) s k).writeList = { seg with data := seg.data.drop k, seq := addS seg.seq k } :: rest := by
+    (ackLoop (fuel + 1) s k).writeList = { seg with data := seg.data.drop k, seq := addS seg.seq k, gOff := seg.gOff + k } :: rest := by
   unfold ackLoop
   have : (k == 0) = false := by simp; omega
   simp only [this, Bool.false_eq_true, ↓reduceIte, hwl]
